@@ -26,17 +26,7 @@ func VerifC19_CommonPorts() {
 	v.Assert(got == verifC19DocCommon(p0, p1, proto), "isCommonPort equals the documented list")
 }
 
-func verifC19Eq(a, b []byte) bool {
-	if len(a) != len(b) {
-		return false
-	}
-	for i := range a {
-		if a[i] != b[i] {
-			return false
-		}
-	}
-	return true
-}
+func verifC19Eq(a, b []byte) bool { return v.EqBytes(a, b) }
 
 // VerifC19_V4: for every IPv4 header of symbolic length (>= fixed header) and symbolic bytes the parser
 // classifies or extracts the documented key, and never violates a bounds check.
